@@ -45,6 +45,31 @@ claimed["C19"]=dict(cat="model_checking", ref="DESIGN.md §4 C19",
 claimed["C07"]=dict(cat="model_checking", ref="DESIGN.md §4 C07",
    text="Monitored execution: while goatlang's real exec runs symbolically on every feasible path of each program (statement-form list, C06 skeletons, C08/C09/C11/C12 corpora; inputs symbolic), invariants are evaluated at the head of every dispatch-loop iteration: same operand depth on every visit of a pc on every path and never negative, pc inside the function, `$` operands below the slot count, each instruction's stack effect (calls: −consumed +requested), RETURN k with exactly k values, nothing residual when a body falls off its end, caller locals identical across calls; results are also compared with Go.",
    note="Covers feasible paths only (CFG paths no input can take are not covered). Per-opcode stack effects are the monitor's specification, read off do.go. Monitor violations are confirmed by re-executing the real code with the concrete inputs in the engine (the stack discipline is not observable natively); result/output disagreements are replayed natively. Trusted: go/ssa, engine, z3.", tech="symbolic execution of Go SSA with VM-state monitors at every dispatch step + SMT path exploration")
+
+claimed["C01"]=dict(cat="translation_validation", ref="DESIGN.md §4 C01",
+   text="Seeded whole programs — composite programs combining 3–6 of 22 feature snippets (struct-in-map compound assignment in nested loops, interfaces, slices of slices, byte wrap-around, math/strconv/strings/fmt/errors calls, func values in maps, variadics, recursion, …) plus re-seeded samples of the C05–C14 generators — are run by goatlang's real code in the engine and compared with Go on every feasible path with int/byte/float64/bool inputs symbolic: output text, results and failure outcome.",
+   note=TV_NOTE+" Bounded: 60+~130 programs quick, 800+~1600 thorough. Stdlib shims are called natively on concrete arguments only (a few math functions and strconv.Itoa are modelled symbolically). The Go reference is single-package (multi-package loading: C15/C16).", tech="symbolic execution of Go SSA + SMT equivalence against go/ssa(386) reference; native replay")
+claimed["C03"]=dict(cat="model_checking", ref="DESIGN.md §4 C03",
+   text="The real Eval (parse, loadImports, compile, run, treeDump, codeDump) and Call/Func on what it defined run in the engine on ARBITRARY token sequences: 13 concrete contexts + 0–2 (thorough 3) symbolic tokens whose Symbol ranges over the real symbols table (+ scanner symbols missing from it) and whose Text ranges over per-class sets incl. malformed literals; run options are symbolic booleans. Asserted: no Go panic escapes, every error carries a stage prefix, the front end terminates within the step bound.",
+   note="The scanner itself (text/scanner) and fs.Glob over arbitrary trees are not encoded; every reported sequence is rendered as text and replayed through the real tokenizer natively. Tokens are concretised lazily when first read, so the exploration covers every distinct consumed prefix; with a finite alphabet this is exhaustive enumeration driven by the symbolic executor — the solver's role is feasibility/bookkeeping. Script non-termination in the run phase is excepted (counted as unwind).", tech="symbolic execution of Go SSA with lazily concretised symbolic token lists (finite-domain) + SMT; native replay")
+claimed["C14"]=dict(cat="translation_validation", ref="DESIGN.md §4 C14",
+   text="Print templates (Println/Print/Sprint of every scalar kind, slices and single-entry maps as element/value/key, multi-operand Println, builtin println, nesting depth 2–5, empty/nil containers, float literals at the %v thresholds, NaN/±Inf/−0, integer bounds) with symbolic leaves compared with Go: integers as decimal renderings of the 64-bit value, floats as 'the same float64 reaches the same formatter'; harnesses for &{Field:value} struct rendering in declaration order and for termination of String()/Sprint/Println on cyclic object graphs (self, pair, triple; through pointers, slices, maps).",
+   note=TV_NOTE+" Digit generation of fmt/strconv is uninterpreted (injective renderers). Known findings (listed in known_findings.json, pinned by the repo's own tests): containers nested ≥3 levels print [...].", tech="symbolic execution of Go SSA with a segment model of fmt output + SMT equivalence against go/ssa(386) reference; native replay")
+claimed["C15"]=dict(cat="model_checking", ref="DESIGN.md §4 C15",
+   text="The real Load on an in-memory tree for EVERY import relation over 2 and 3 (thorough 4) packages plus main (one symbolic boolean per ordered pair) × 7 file layouts (two files, vendor/, shortened path, vendor+long path, single file, _test.go + //go:build ignore/!goat/goat files, conflicting package clause): acyclic ⇒ each reachable package's top-level code and init run exactly once, dependencies first, unreachable packages not at all, ignored files never; cyclic or conflicting ⇒ an error, never a host panic.",
+   note="All branching is on the input bits, so the exploration enumerates the graphs (the solver contributes bookkeeping). tokenize and build-constraint evaluation are delegated natively; io/fs is modelled over testing/fstest.MapFS (Glob of one directory level, ReadFile). Bounded: ≤3 packages quick, ≤4 thorough.", tech="symbolic execution of Go SSA over symbolic import relations + SMT; native replay")
+claimed["C16"]=dict(cat="model_checking", ref="DESIGN.md §4 C16",
+   text="Lemma on the real treeSort for every list of 0..5 (thorough 6) top-level nodes over 8 node kinds: result is a permutation, hoistable kinds first, init last, equal priorities keep source order (sort.SliceStable modelled as stable insertion sort calling the real less). Plus seeded (permutation of 6 mutually referring hoistable declarations × partition into 1–3 files) layouts of one package loaded with the real Load and compared with Go with symbolic inputs.",
+   note=TV_NOTE+" Constants, var initialisers and init keep source order in one file, as the property states. Bounded: list length ≤5/6; 60/1200 layouts.", tech="symbolic execution of Go SSA (lemma over symbolic node kinds; equivalence against go/ssa(386) reference) + SMT; native replay")
+claimed["C17"]=dict(cat="model_checking", ref="DESIGN.md §4 C17",
+   text="Histories on one VM: initial Load of one of 3 versions, then 3 (thorough 5) actions each chosen symbolically among reload (any version incl. the same), entry-point call, capture/call of a function value, instance creation, capture/call of a bound method and a method on the old instance, mutation of an initialised package variable; call arguments symbolic. Asserted per call: the current version's code runs (also through captured values), uninitialised package variables keep their value, initialised ones are re-initialised.",
+   note="The expected values are the harness's arithmetic model of the property text (32-bit wrap-around), not a Go lowering; versions are 3 fixed texts differing in function/method bodies and an initialiser. Trusted: go/ssa, engine, z3; replay natively.", tech="symbolic execution of Go SSA (bounded model checking of load/call histories) + SMT; native replay")
+claimed["C18"]=dict(cat="translation_validation", ref="DESIGN.md §4 C18",
+   text="Seeded top-level sequences of 2..4 (thorough 6) statements with two symbolic pre-set globals; for EVERY non-trivial way of cutting the sequence into consecutive Eval calls on one VM (shared WithEvalImports map) the output, the last Eval's values (type, number, rendering) and all declared globals are compared with one Eval of the whole text — both sides goatlang's real Eval in the engine.",
+   note="Both sides are goatlang. Bounded: 120/1000 sequences, all 2^(n-1)-1 cuts each. Only the final statement is an expression. Trusted: go/ssa, engine, z3; replay natively.", tech="symbolic execution of Go SSA, self-composition (whole vs incremental) + SMT; native replay")
+claimed["C20"]=dict(cat="translation_validation", ref="DESIGN.md §4 C20",
+   text="Call chains (depth 1,2,4,7; thorough up to 30) through functions and methods in six variants (plain, after a loop, after a switch, call as statement, call spread over lines in two ways) with seven fault kinds planted at generator-known lines in every level; symbolic selectors decide which fault fires at which depth. The real error text is checked in three pipelines (public Eval, optimizer on, off): first line = function and line of the fault, then one line per active call innermost first with the call's line, and the (function, line) sequence identical on/off.",
+   note="Expected lines come from the generator. Columns and opcode mnemonics legitimately differ between modes and are not compared. Trusted: go/ssa, engine, z3; replay natively in all three pipelines.", tech="symbolic execution of Go SSA with symbolic fault selectors + SMT; native replay")
 reasons={}
 checks=[]
 for pid in ALL:
